@@ -113,7 +113,7 @@ class Resolver:
         if short in CONTAINER_ANN and (r is None or not r.startswith("xsdata")):
             return [("extinst", CONTAINER_ANN[short])]
         if r and ":" not in r and r not in self.repo.modules:
-            if short in ("Any", "T", "Self"):
+            if short in ("Any", "T", "Self", "Callable", "TypeVar"):
                 return []
             return [("extinst", r)]
         return []
@@ -503,6 +503,9 @@ class Resolver:
                         for at in self.attr_types(ci, f.attr):
                             self._add_type_target(res, at)
                         if not (res.funcs or res.ctors or res.externals):
+                            for at in self._field_default_types(ci, f.attr):
+                                self._add_type_target(res, at)
+                        if not (res.funcs or res.ctors or res.externals):
                             for sub in ci.all_subclasses():
                                 if f.attr in sub.methods:
                                     self._add_func(res, sub.methods[f.attr])
@@ -577,6 +580,38 @@ class Resolver:
         else:
             res.unresolved = True
         return res
+
+    def _field_default_types(self, ci: ClassInfo, attr: str) -> list[T]:
+        """A callable stored in a (dataclass) field: resolve through its default value."""
+        fa = ci.find_attr(attr)
+        if fa is None:
+            return []
+        owner, val = fa
+        if isinstance(val, ast.Call) and (dotted_name(val.func) or "").split(".")[-1] == "field":
+            for k in val.keywords:
+                if k.arg == "default":
+                    val = k.value
+                    break
+            else:
+                return []
+        name = dotted_name(val)
+        if name is None:
+            return []
+        return self._global_types(owner.module, name.split(".")[0]) if "." not in name else self._dotted_types(owner.module, name)
+
+    def _dotted_types(self, mod: Module, name: str) -> list[T]:
+        r = self.repo.resolve_name(mod, name)
+        if r is None:
+            return []
+        if r in self.repo.classes:
+            return [("type", r)]
+        if r in self.repo.functions:
+            return [("func", r)]
+        if r in self.repo.modules:
+            return [("mod", r)]
+        if ":" in r:
+            return []
+        return [("ext", r)]
 
     def _table_values(self, fi: FuncInfo, e: ast.expr) -> list[T]:
         """Values of a dict literal bound to a local/global/class attribute used as dispatch."""
